@@ -61,8 +61,10 @@ Fixpoint boundary_prefixes (fuel : nat) (p : str) : list str :=
   end.
 Definition ancestors (p : str) : list str := boundary_prefixes (length p) p.
 
-(* applyChangeToConfig: set, then drop every ancestor (at element boundaries) marked deleted; the outermost is returned *)
+(* applyChangeToConfig: set; a live value then drops every ancestor (at element boundaries) marked deleted and the
+   outermost is returned; a deleted value leaves its ancestors alone (repo 13d170a) *)
 Definition apply_change_to_config (m : cmap) (path : str) (v : pv) : cmap * option (str * pv) :=
+  if pv_deleted v then (insert path v m, None) else
   fold_left (fun '(acc, dropped) a =>
                match lookup a acc with
                | Some e => if pv_deleted e then (remove a acc, Some (a, e)) else (acc, dropped)
@@ -152,12 +154,20 @@ Fixpoint permute_fuel {A} (fuel : nat) (n : N) (l : list A) : list A :=
     end
   end.
 Definition permute {A} (n : N) (l : list A) : list A := permute_fuel (length l) n l.
+(* the part of the code [n] that [permute n l] did not consume: picks a second, independent order *)
+Fixpoint rest_code (len : nat) (n : N) : N :=
+  match len with
+  | O => n
+  | S k => rest_code k (n / N.of_nat len)
+  end.
 
-(* reconcileCommit on the values: [m] the stored map, [vw] the loaded view; the updated change values are
-   applied in Go map order ([ord] picks it): a descendant applied after its deleted ancestor drops that ancestor *)
+(* reconcileCommit on the values: [m] the stored map, [vw] the loaded view.  Both loops follow a Go map iteration order,
+   picked by [ord]: AddDeleteChildren walks the change values (a value that is also beneath a deleted value of the same
+   change ends up as whichever was handled last), then the updated change values are applied (a descendant applied
+   after its deleted ancestor drops that ancestor) *)
 Definition commit_merge (ord : N) (index : N) (m vw change : cmap) : cmap :=
-  let '(upd, st) := add_delete_children index change vw in
-  let st' := fold_left (fun acc '(p, v) => fst (apply_change_to_config acc p v)) (permute ord upd) st in
+  let '(upd, st) := add_delete_children index (permute ord change) vw in
+  let st' := fold_left (fun acc '(p, v) => fst (apply_change_to_config acc p v)) (permute (rest_code (length change) ord) upd) st in
   store_write m st'.
 
 (* reconcileValidate, Change case *)
@@ -189,9 +199,9 @@ Definition payload (index : N) (values change : cmap) : option req :=
   Some (to_req (prune_path_values (map snd (fst (add_delete_children index change values))) true)).
 
 (* Applied.Values (loaded from the same Atomix map) += upd; UpdateStatus stores them *)
-Definition record_applied (index : N) (m va vw change : cmap) : cmap :=
-  let upd := fst (add_delete_children index change vw) in
-  store_write m (fold_left (fun acc '(p, v) => fst (apply_change_to_config acc p v)) upd va).
+Definition record_applied (ord : N) (index : N) (m va vw change : cmap) : cmap :=
+  let upd := fst (add_delete_children index (permute ord change) vw) in
+  store_write m (fold_left (fun acc '(p, v) => fst (apply_change_to_config acc p v)) (permute (rest_code (length change) ord) upd) va).
 (* the loaded view as mutated by AddDeleteChildren through the shared pointers *)
 Definition touched (index : N) (vw change : cmap) : cmap := snd (add_delete_children index change vw).
 (* any other UpdateStatus: the loaded applied values are stored again *)
